@@ -83,7 +83,8 @@ macro "genBodies" : tactic => `(tactic|
   try simp only [Gen.logicalImmediate, Gen.logicalZeroPage, Gen.logicalZeroPageX, Gen.logicalAbsolute, Gen.logicalAbsoluteX,
     Gen.logicalAbsoluteY, Gen.logicalIdxXIndirect, Gen.logicalIndirectIdxY, Gen.logicalIndirect,
     Gen.modImplied, Gen.modZeroPage, Gen.modZeroPageX, Gen.modAbsolute, Gen.modAbsoluteX, Gen.modAbsoluteX65C02,
-    Gen.branchOnFlagClear, Gen.branchOnFlagSet, Gen.branchOnBitClear, Gen.branchOnBitSet, Gen.rmbBase, Gen.smbBase])
+    Gen.branchOnFlagClear, Gen.branchOnFlagSet, Gen.branchOnBitClear, Gen.branchOnBitSet, Gen.rmbBase, Gen.smbBase,
+    Gen.ldaBase, Gen.ldxBase, Gen.ldyBase])
 
 /-- a handler's symbolic cycle count evaluated at the literals extracted from the source on this run -/
 def evalS (m : M StepOutS) : M StepOut := do
@@ -98,7 +99,7 @@ macro "codeEq" "[" ts:Lean.Parser.Tactic.simpLemma,* "]" : tactic => `(tactic|
   (funext r; (try simp only [evalS, Impl.handler, $ts,*, codeBridge]);
    unfoldNewGen; genBodies; (try simp only [codeBridge]); unfoldNewGen; genBodies; (try simp only [codeBridge]);
    implDefs; eqM;
-   all_goals (try (simp only [Generated.consts]; simp_all))))
+   all_goals (try rfl); all_goals (try (simp only [Generated.consts])); all_goals (try simp_all); all_goals (try omega)))
 
 -- ---------------------------------------------------------------------------------------
 -- helpers: flags and ALU (property C01)
@@ -195,16 +196,6 @@ macro "codeEq" "[" ts:Lean.Parser.Tactic.simpLemma,* "]" : tactic => `(tactic|
   funext model a; codeEq [Gen.Inc, GenMod, Modifier.apply]
 @[codeBridge] theorem Dec_code_R : Gen.Dec = GenMod .Dec := by
   funext model a; codeEq [Gen.Dec, GenMod, Modifier.apply]
-
-@[codeBridge] theorem ldaBase_code_R (model : CpuModel) (v : Byte) :
-    Gen.ldaBase model v = fun r => Prog.ret (false, { r with a := v, p := Impl.nzFlags r.p v }) := by
-  codeEq [Gen.ldaBase]
-@[codeBridge] theorem ldxBase_code_R (model : CpuModel) (v : Byte) :
-    Gen.ldxBase model v = fun r => Prog.ret (false, { r with x := v, p := Impl.nzFlags r.p v }) := by
-  codeEq [Gen.ldxBase]
-@[codeBridge] theorem ldyBase_code_R (model : CpuModel) (v : Byte) :
-    Gen.ldyBase model v = fun r => Prog.ret (false, { r with y := v, p := Impl.nzFlags r.p v }) := by
-  codeEq [Gen.ldyBase]
 
 -- ---------------------------------------------------------------------------------------
 -- helpers: addressing, stack (bus accesses: C01, C02, C03)
